@@ -591,7 +591,8 @@ def check_C20(res, tier, seed):
         total_distinct += a['distinct_traces'] + b['distinct_traces']
         total_seq += a['sequences'] + b['sequences']
         for (fn, n, extra, label) in (('seq_attr', 40 if q else 1500, (), 'K-attr'), ('seq_c10', 40 if q else 1500, (), 'K-crypto'), ('seq_c13', 40 if q else 1500, (paddrv,), 'K-pad'),
-                                      ('seq_guard', 40 if q else 1500, (), 'K-guard'), ('seq_reject', 30 if q else 1000, (), 'K-reject'), ('seq_tokens', 30 if q else 1000, (), 'K-token')):
+                                      ('seq_guard', 40 if q else 1500, (), 'K-guard'), ('seq_reject', 30 if q else 1000, (), 'K-reject'), ('seq_tokens', 30 if q else 1000, (), 'K-token'),
+                                      ('seq_persist', 24 if q else 600, (None,), 'K-persist')):
             s_, d_, _ = run_kcrypto(c, res, 'C20', 'cfg:%s:%s' % (backend, fn), n, seed, extra=extra, stream='%s[%s]' % (label, name), lib_override=lib,
                                     classify=botan_known if variant.startswith('botan') else None)
             st[label] = {'sequences': s_['sequences'], 'calls': s_['calls'], 'findings': s_['findings'], 'known_findings': s_.get('known_findings', 0)}
